@@ -359,6 +359,10 @@ def run(ctx):
         lines, ids = pdbgen.multichain(rnd, nchains=rnd.randint(1, 3), separation=rnd.choice([10.0, 15.0, 25.0]))
         if i % 2 == 0:
             lines += rnd.choice(hets)[2]
+        else:
+            # a ligand base (aromatic ring nitrogen) accepting a backbone N-H hydrogen bond
+            lp = pdbgen.add_pyridine(rnd, lines, dist=rnd.choice([2.8, 3.0, 3.2]))
+            lines = lp if lp is not None else lines
         if i % 3 == 1:
             # several conformations: the reported values are then averages
             from . import c08
